@@ -79,6 +79,37 @@ fn gen(ctx: &Ctx) -> Vec<String> {
     cases
 }
 
+/// Look a name up through every `AsHeaderName` key type in turn (`&str`, `String`, `&String`,
+/// `HeaderName`, `&HeaderName`; the choice follows the token's position in the case, so a case
+/// replays exactly): "names compared case-insensitively" has to hold for each of them.
+macro_rules! keyed {
+    ($i:expr, $n:expr, |$k:ident| $body:expr) => {{
+        let s: String = $n.to_string();
+        match ($i % 5, HeaderName::from_bytes($n.as_bytes()).ok()) {
+            (1, _) => {
+                let $k = s.clone();
+                $body
+            }
+            (2, _) => {
+                let $k = &s;
+                $body
+            }
+            (3, Some(h)) => {
+                let $k = h;
+                $body
+            }
+            (4, Some(h)) => {
+                let $k = &h;
+                $body
+            }
+            _ => {
+                let $k = $n;
+                $body
+            }
+        }
+    }};
+}
+
 type Ref = BTreeMap<String, Vec<String>>;
 
 fn norm(n: &str) -> Option<String> {
@@ -183,7 +214,7 @@ fn run(line: &str) -> CaseResult {
     let mut fails: Vec<(String, String)> = Vec::new();
     let mut nontrivial = false;
     let mut tags = Vec::new();
-    for tok in line.split_ascii_whitespace() {
+    for (ti, tok) in line.split_ascii_whitespace().enumerate() {
         let parts: Vec<&str> = tok.split(':').collect();
         tags.push(parts[0].to_owned());
         let out = match parts.as_slice() {
@@ -205,7 +236,7 @@ fn run(line: &str) -> CaseResult {
             },
             ["rm", n] => {
                 let old = norm(n).and_then(|k| r.remove(&k));
-                let rem = m.remove(*n);
+                let rem = keyed!(ti, *n, |k| m.remove(k));
                 removed(rem, &mut fails, old.as_ref())
             }
             ["rt", n, v] => {
@@ -254,7 +285,7 @@ fn run(line: &str) -> CaseResult {
             }
             ["gt", n] => {
                 let want = norm(n).and_then(|k| r.get(&k)).map(|v| v[0].clone());
-                let got = m.get(*n).map(val);
+                let got = keyed!(ti, *n, |k| m.get(k)).map(val);
                 if got != want {
                     fails.push(("get".into(), format!("get({n}) = {:?} want {:?}", got, want)));
                 }
@@ -263,7 +294,7 @@ fn run(line: &str) -> CaseResult {
             ["gm", n, v] => {
                 // store through get_mut: replaces the first value of the name, nothing else
                 let want = norm(n).and_then(|k| r.get_mut(&k)).map(|vs| std::mem::replace(&mut vs[0], v.to_string()));
-                let got = m.get_mut(*n).map(|slot| {
+                let got = keyed!(ti, *n, |k| m.get_mut(k)).map(|slot| {
                     let old = val(slot);
                     *slot = HeaderValue::from_str(v).unwrap();
                     old
@@ -275,7 +306,7 @@ fn run(line: &str) -> CaseResult {
             }
             ["ga", n] => {
                 let want = norm(n).and_then(|k| r.get(&k)).cloned().unwrap_or_default();
-                let got: Vec<String> = m.get_all(*n).map(val).collect();
+                let got: Vec<String> = keyed!(ti, *n, |k| m.get_all(k)).map(val).collect();
                 if got != want {
                     fails.push(("get_all".into(), format!("get_all({n}) = {:?} want {:?}", got, want)));
                 }
@@ -283,7 +314,7 @@ fn run(line: &str) -> CaseResult {
             }
             ["ck", n] => {
                 let want = norm(n).map(|k| r.contains_key(&k)).unwrap_or(false);
-                let got = m.contains_key(*n);
+                let got = keyed!(ti, *n, |k| m.contains_key(k));
                 if got != want {
                     fails.push(("contains".into(), format!("contains_key({n}) = {got}")));
                 }
